@@ -257,13 +257,25 @@ func (q *quietTB) Failed() bool                      { return q.failed }
 // runs its own goroutines) the case about to be executed is written to
 // $VERIF_CRASHCAP_FILE first, so that when a panic on a goroutine of the code under test
 // kills the whole test binary the driver still has the case that did it (the replay file).
+var crashCapFile *os.File
+
 func crashCapture[C any](c C) {
-	f := os.Getenv("VERIF_CRASHCAP_FILE")
-	if f == "" {
-		return
+	if crashCapFile == nil {
+		f := os.Getenv("VERIF_CRASHCAP_FILE")
+		if f == "" {
+			return
+		}
+		fh, err := os.OpenFile(f, os.O_CREATE|os.O_RDWR|os.O_TRUNC, 0o644)
+		if err != nil {
+			return
+		}
+		crashCapFile = fh
 	}
 	if b, err := json.Marshal(map[string]any{"property": os.Getenv("VERIF_CRASHCAP"), "case": c}); err == nil {
-		_ = os.WriteFile(f, b, 0o644)
+		// pad-free rewrite in place: write, then cut off what is left of a longer predecessor
+		if _, err := crashCapFile.WriteAt(b, 0); err == nil {
+			_ = crashCapFile.Truncate(int64(len(b)))
+		}
 	}
 }
 
